@@ -1865,3 +1865,129 @@ func VH(rc *RC) {
 		}
 	}
 }
+
+// O6p: every reset in ReturnTensor is unconditional in the tensor's other state. O6 (on SSA,
+// flow-insensitive) shows that each field is stored with its zero value somewhere; a reset
+// that sits under a condition on ANOTHER field of the tensor (seed RFC13a: the saved pattern
+// cleared only when the tensor is not a view) leaves that field as it was on the other branch.
+// A condition on the field itself (`if transposeWith != nil { … transposeWith = nil }`) is the
+// usual release idiom and is accepted.
+var o6pField = regexp.MustCompile(`(%\w+)\.([A-Za-z_]\w*)`)
+
+func O6p(rc *RC) {
+	rc.S.Declare("O6p", "pool hygiene, path clause: no reset of a field of the recycled tensor in ReturnTensor is guarded by a condition on another field of that tensor", 1)
+	key := "tensor.ReturnTensor"
+	fi := anchor(rc, "O6p", key)
+	if fi == nil {
+		return
+	}
+	pos := rc.P.Pos(fi.Decl.Pos())
+	c := ir.NewCanon(rc.P.Fset, fi.Pkg.TypesInfo, ir.Options{ParamNames: true, KeepNames: true, NoSubst: true})
+	tree := c.Func(fi.Decl)
+	var bad []string
+	guards := 0
+	walkNodes(tree, func(n *ir.Node) {
+		if n.Kind != "if" {
+			return
+		}
+		cf := map[string]bool{}
+		obj := ""
+		for _, m := range o6pField.FindAllStringSubmatch(n.Head, -1) {
+			cf[m[2]] = true
+			obj = m[1]
+		}
+		if obj == "" {
+			return
+		}
+		guards++
+		walkNodes(append(append([]*ir.Node{}, n.Kids...), n.Else...), func(k *ir.Node) {
+			for _, m := range o6pField.FindAllStringSubmatch(k.Head, -1) {
+				if m[1] == obj && !cf[m[2]] && (k.Kind == "call" || k.Kind == "store" || k.Kind == "let") && strings.HasPrefix(strings.TrimSpace(k.Head), obj+".") {
+					bad = append(bad, fmt.Sprintf("%s is reset only under [%s], a condition on another field: on the other branch the pooled tensor keeps it, and the next borrower inherits it", obj+"."+m[2], n.Head))
+				}
+			}
+		})
+	})
+	if len(bad) > 0 {
+		rc.S.Viol("O6p", key, pos, strings.Join(uniq(bad), "; ")).Sig = "conditional reset"
+	} else {
+		rc.S.Ok("O6p", key, pos, fmt.Sprintf("%d guard(s) on the tensor's fields, each guarding only the release of that same field", guards))
+	}
+}
+
+// MC: makeMask yields a cleared mask. Every returning path either allocates the mask afresh
+// and/or clears it with memsetBools(mask, false) after the last store to it: MaskFromSlice and
+// the predicates start from an all-false mask (seed RFC15b: the re-sliced old mask is returned
+// as it is when its capacity suffices).
+func MC(rc *RC) {
+	rc.S.Declare("MC", "makeMask yields an all-false mask: on every returning path the last thing done to the mask is memsetBools(mask, false) (or it was just allocated)", 1)
+	key := "tensor.(*Dense).makeMask"
+	fi := anchor(rc, "MC", key)
+	if fi == nil {
+		return
+	}
+	pos := rc.P.Pos(fi.Decl.Pos())
+	c := ir.NewCanon(rc.P.Fset, fi.Pkg.TypesInfo, ir.Options{ParamNames: true, KeepNames: true, NoSubst: true})
+	paths, ok := ir.EnumPaths(c.Func(fi.Decl), 500)
+	if !ok {
+		rc.S.Undec("MC", key, pos, "too many paths")
+		return
+	}
+	var bad []string
+	for _, p := range paths {
+		if p.Exit == "panic" {
+			continue
+		}
+		state := "unknown"
+		for _, st := range p.Steps {
+			switch {
+			case (st.Kind == "store" || st.Kind == "let") && st.Target == "$r.mask" && strings.HasPrefix(st.Value, "make("):
+				state = "fresh"
+			case (st.Kind == "store" || st.Kind == "let") && st.Target == "$r.mask" && strings.HasPrefix(st.Value, "$r.mask["):
+				// a reslice keeps what the state was (fresh stays fresh, old stays old)
+				if state != "fresh" && state != "cleared" {
+					state = "old"
+				}
+			case (st.Kind == "store" || st.Kind == "let") && st.Target == "$r.mask":
+				state = "old"
+			case strings.Contains(st.Head, "memsetBools($r.mask, false)"):
+				state = "cleared"
+			}
+		}
+		if state != "fresh" && state != "cleared" {
+			bad = append(bad, fmt.Sprintf("the path [%s] returns a mask that was neither allocated nor cleared: marks of the previous mask survive", strings.Join(p.Guards, " && ")))
+		}
+	}
+	if len(bad) > 0 {
+		rc.S.Viol("MC", key, pos, strings.Join(uniq(bad), "; ")).Sig = "uncleared path"
+	} else {
+		rc.S.Ok("MC", key, pos, "every returning path ends with a cleared or freshly allocated mask")
+	}
+}
+
+// TR: Trace walks the diagonal by the matrix's own strides. One step along the diagonal is one
+// step along each axis: stride[0] + stride[1]. A step derived from the shape and the data order
+// is right only for a matrix whose strides are the defaults of its shape - not for a lazily
+// transposed non-square matrix or a view that cuts columns (seed RFC09a).
+func TR(rc *RC) {
+	rc.S.Declare("TR", "Trace's diagonal step is taken from both strides of the operand (stride of axis 0 plus stride of axis 1), not derived from shape and data order", 1)
+	key := "tensor.(StdEng).Trace"
+	fi := anchor(rc, "TR", key)
+	if fi == nil {
+		return
+	}
+	pos := rc.P.Pos(fi.Decl.Pos())
+	_, tree := sCanon(rc, fi)
+	txt := ir.Render(tree)
+	has := func(k string) bool {
+		return strings.Contains(txt, ".Strides()["+k+"]") || strings.Contains(txt, ".strides["+k+"]")
+	}
+	switch {
+	case has("0") && has("1"):
+		rc.S.Ok("TR", key, pos, "both strides are read")
+	case !strings.Contains(txt, "range") && !strings.Contains(txt, "for "):
+		rc.S.Ok("TR", key, pos, "no loop over the diagonal in this function (another form): not judged")
+	default:
+		rc.S.Viol("TR", key, pos, "the diagonal is walked without reading both strides of the operand: a step computed from the shape or the data order is wrong for every matrix whose strides are not the defaults of its shape (a lazily transposed non-square matrix, a view that cuts columns)").Sig = "step not from strides"
+	}
+}
